@@ -135,9 +135,19 @@ class CallMixin:
                 return v
             if v.k.head == "str":
                 return SInt(int_of_str(self.as_str(v)))
+            if v.k.head in ("any", "opaque"):
+                # value of unknown kind (e.g. a lark Token): its own integer if it is one, int(str) if it is a string,
+                # an uninterpreted function of the value otherwise
+                if "int_of_any" not in uni.uf:
+                    uni.uf["int_of_any"] = z3.Function("int_of_any", V, IntS)
+                return SInt(z3.If(is_VInt(v.t), ival(v.t), z3.If(is_VStr(v.t), int_of_str(sval(v.t)), uni.uf["int_of_any"](v.t))))
             raise OutOfSubset("int() of %r" % (v.k,))
         if name == "bool":
             return SBool(self.truth(st, self.ev(node.args[0], st, cx)))
+        if name == "id":
+            # identity of a heap object: its reference (injective; only meaningful for references)
+            v = self.ev(node.args[0], st, cx)
+            return SInt(ref(v.t))
         if name == "cast":
             v = self.ev(node.args[1], st, cx)
             k = kind_of_annotation(node.args[0], uni)
@@ -329,6 +339,19 @@ class CallMixin:
             if not cases:
                 raise OutOfSubset("isinstance against class variable %s: no declared classes" % cname)
             return z3.Or(cases)
+        if cname in ("dict", "list", "set", "tuple"):
+            # built-in containers carry no run-time tag in the heap model: decided from the static kind where it is
+            # known, an uninterpreted predicate of the value otherwise (nothing is assumed about it)
+            hk = unopt(v.k).head
+            static = {"dict": ("dict",), "list": ("list",), "set": ("set",), "tuple": ("tuple", "vtuple")}[cname]
+            if hk in static:
+                return z3.BoolVal(True)
+            if hk in ("dict", "list", "set", "tuple", "vtuple", "int", "str", "bool", "obj", "val", "none"):
+                return z3.BoolVal(False)
+            name = "is_builtin_" + cname
+            if name not in uni.uf:
+                uni.uf[name] = z3.Function(name, V, BoolS)
+            return uni.uf[name](v.t)
         if cname == "int":
             return is_VInt(v.t)
         if cname == "str":
@@ -345,6 +368,18 @@ class CallMixin:
             cl = z3.Select(st.H("cls"), ref(v.t))
             fs.append(z3.And(is_VRef(v.t), z3.Or([cl == uni.class_id(c) for c in sorted(os_)])))
         if not fs:
+            if cname in uni.opaque_attrs or cname in getattr(uni, "class_names", ()):
+                # an opaque collaborator class (lark Tree, ...): true for values statically of that kind, false for the
+                # engine's own kinds, an uninterpreted predicate otherwise
+                hk = unopt(v.k)
+                if hk.head == "opaque" and len(hk) > 1 and hk[1] == cname:
+                    return z3.BoolVal(True)
+                if hk.head in ("dict", "list", "set", "tuple", "vtuple", "int", "str", "bool", "none"):
+                    return z3.BoolVal(False)
+                name = "is_opaque_" + cname
+                if name not in uni.uf:
+                    uni.uf[name] = z3.Function(name, V, BoolS)
+                return uni.uf[name](v.t)
             raise OutOfSubset("isinstance against undeclared class %s" % cname)
         return z3.Or(fs)
 
@@ -468,6 +503,13 @@ class CallMixin:
             return SBool(z3.PrefixOf(self.as_str(self.ev(node.args[0], st, cx)), s))
         if meth == "endswith":
             return SBool(z3.SuffixOf(self.as_str(self.ev(node.args[0], st, cx)), s))
+        if meth in ("replace", "strip", "lstrip", "rstrip") and len(node.args) <= 2 and not node.keywords:
+            # uninterpreted: some string determined by the receiver and the arguments (nothing else is assumed)
+            args = [self.as_str(self.ev(a, st, cx)) for a in node.args]
+            name = "str_%s%d" % (meth, len(args))
+            if name not in self.uni.uf:
+                self.uni.uf[name] = z3.Function(name, *([StrS] * (1 + len(args)) + [StrS]))
+            return SStr(self.uni.uf[name](s, *args))
         raise OutOfSubset("str.%s" % meth)
 
     def list_method(self, recv, k, meth, node, st, cx):
